@@ -162,6 +162,17 @@ func runC01(c *Ctx) {
 		}
 		one(x)
 	}
+	// a server whose STAT / FSTAT reports a size that is not the content's (0 for /proc files and generated content, a stale size,
+	// an inflated one): the size only picks the path; WriteTo, like Read, still delivers what the READs deliver, to the end
+	for i := 0; i < budget/12; i++ {
+		p := []int{2, 3, 8}[i%3]
+		flen := []int{1, p, p + 1, 3*p + 1, 5 * p}[i%5]
+		x := &xcase{api: []string{"writeto", "writeto", "read", "readat"}[i%4], p: p, conc: 1 + i%3, cr: i%5 != 4, cw: false, fst: i%2 == 0, flen: flen, n: flen + 1, off: 0,
+			maxtx: 32768, src: "opaque", backend: []string{"peer", "peerperm"}[i%2], regular: true}
+		x.statSize = 1 + []int{0, 0, 1, flen / 2, 4 * flen}[(i/2)%5]
+		c.Stat("lying_stat_size_cases")
+		one(x)
+	}
 	// "a nil error means the whole request was transferred": the request server over a backend whose ReadAt / WriteAt fails
 	// at chosen request offsets - a failing ReadAt returns the bytes it did get together with its error, as io.ReaderAt
 	// allows. The model sees the plan as failing chunks (the server must answer such a chunk with the error's status).
